@@ -642,3 +642,35 @@
     #[kani::unwind(10)]
     //@ERR
     fn c03_xz_finish_block_crc64_e2() { xz_finish_block(CheckType::Crc64, 2); }
+
+    // ---------------------------------------------------------------- C03.xz.backward: footer Backward Size with a 2-byte record count
+    /// Stream footer for an index of N >= 128 records (the Number of Records field then takes 2 bytes):
+    /// Backward Size = (real index size)/4 - 1 per xz-file-format 2.1.2.1, where the real index size is
+    /// 1 (indicator) + len(mbi(N)) + sum of record field lengths, padded to 4, + 4 (CRC32). liblzma locates the index
+    /// from this field; our own reader does not use it, so only the format oracle can see a miscount.
+    fn xz_footer_backward(n: usize, u: u64, v: u64, ku: usize, kv: usize) {
+        let mut w = core::mem::ManuallyDrop::new(XZWriter::new(vk::Sink::<16>::new(), opts(CheckType::Crc32, 1 << 16)).unwrap());
+        w.index_records = Vec::with_capacity(132);
+        let mut i = 0;
+        while i < n { w.index_records.push(IndexRecord { unpadded_size: u, uncompressed_size: v }); i += 1; }
+        assert!(w.write_stream_footer().is_ok());
+        let cell = w.original_writer.clone();
+        let sink = cell.borrow();
+        assert!(sink.len == 12);
+        let nlen = if n < 128 { 1 } else { 2 };
+        let index_len = (1 + nlen + n * (ku + kv) + 3) / 4 * 4 + 4;
+        let backward = u32::from_le_bytes([sink.buf[4], sink.buf[5], sink.buf[6], sink.buf[7]]);
+        assert!(backward as usize == index_len / 4 - 1, "footer Backward Size does not lead back to the index indicator");
+    }
+    #[kani::proof]
+    #[kani::unwind(132)]
+    //@ERR
+    fn c03_xz_footer_backward_n129() { xz_footer_backward(129, 100, 5000, 1, 2); }
+    #[kani::proof]
+    #[kani::unwind(132)]
+    //@ERR
+    fn c03_xz_footer_backward_n130() { xz_footer_backward(130, 20000, 70000, 3, 3); }
+    #[kani::proof]
+    #[kani::unwind(132)]
+    //@ERR
+    fn c03_xz_footer_backward_n127() { xz_footer_backward(127, 100, 100, 1, 1); }
